@@ -8,10 +8,12 @@ package main
 
 import (
 	"fmt"
+	"os"
 	"runtime"
-	"time"
+	"strconv"
 	"sync"
 	"sync/atomic"
+	"time"
 
 	"verif/engine/enum"
 	"verif/engine/report"
@@ -66,14 +68,12 @@ func pairSets() []Opts {
 // singleSets: the default and every single option value.
 func singleSets() []Opts { return pairSets()[:1+len(optVals)] }
 
-// skipPairSets: the default, every single option value, and every pair made of a skip count and
-// a value of another option (the skip count is the option that interacts with the number of records).
+// skipPairSets: the default, every single option value, and every pair made of a skip count within
+// the record count (1, 2) and a value of another option (the skip count is the option that
+// interacts with the number of records).
 func skipPairSets() []Opts {
 	out := singleSets()
-	for _, v := range optVals {
-		if v.axis != 5 {
-			continue
-		}
+	for _, v := range optVals[6:8] { // Skip = 1, Skip = 2
 		for _, w := range optVals {
 			if w.axis == 5 {
 				continue
@@ -105,13 +105,14 @@ var preKinds = []string{"to:*[][]string", "to:*[]byte", "to:*string"}
 type tally struct {
 	evals, nontrivial int64
 	outcomes          map[string]int64
-	ambiguous         int64 // executions where the two readings of "skipped lines" differ
-	tookLines         int64 // ... and the codec met only the physical-lines reading
+	ambiguous         int64            // executions where the two readings of "skipped lines" differ
+	tookLines         map[string]int64 // ... and the kind met only the physical-lines reading
 	notApplicable     int64
+	pipeErr           int64
 	roundtripTexts    int64
 }
 
-func newTally() *tally { return &tally{outcomes: map[string]int64{}} }
+func newTally() *tally { return &tally{outcomes: map[string]int64{}, tookLines: map[string]int64{}} }
 
 type explorer struct {
 	r        *report.R
@@ -122,8 +123,10 @@ type explorer struct {
 	slots    []*slot
 	free     chan *slot
 	ambig    atomic.Int64
-	lines    atomic.Int64
+	linesMu  sync.Mutex
+	lines    map[string]int64
 	napp     atomic.Int64
+	pipeErr  atomic.Int64
 	rtTexts  atomic.Int64
 	sampleN  atomic.Int64
 }
@@ -134,10 +137,13 @@ func (e *explorer) record(t *tally, c Case, v verdict) {
 		t.nontrivial++
 	}
 	t.outcomes[v.label]++
+	if v.pipeErr {
+		t.pipeErr++
+	}
 	if v.ambiguous {
 		t.ambiguous++
 		if v.class == "" && v.mask == 2 {
-			t.tookLines++
+			t.tookLines[c.Kind]++
 		}
 	}
 	if v.class != "" {
@@ -225,8 +231,15 @@ func (e *explorer) shard(idx int, text string, sets []Opts) {
 		e.r.Outcome(k, v)
 	}
 	e.ambig.Add(t.ambiguous)
-	e.lines.Add(t.tookLines)
+	if len(t.tookLines) > 0 {
+		e.linesMu.Lock()
+		for k, v := range t.tookLines {
+			e.lines[k] += v
+		}
+		e.linesMu.Unlock()
+	}
 	e.napp.Add(t.notApplicable)
+	e.pipeErr.Add(t.pipeErr)
 	e.rtTexts.Add(t.roundtripTexts)
 }
 
@@ -264,6 +277,18 @@ func main() {
 		r.LoadReplay(&c)
 		cl, what := check(c)
 		fmt.Printf("replay %+v\n  class=%q\n  %s\n", c, cl, what)
+		if n, _ := strconv.Atoi(os.Getenv("C16_REPEAT")); n > 0 {
+			// aid for scheduling-dependent behaviour (WriterTo pipe): repeat the case, print the distribution
+			dist := map[string]int{}
+			for i := 0; i < n; i++ {
+				x := newCtx(c.Text)
+				v, _ := x.evalSingle(c.Kind, c.Opts, c.Pre)
+				dist[fmt.Sprintf("class=%q %s", v.class, x.showOut(c.Kind, c.Opts, v.out))]++
+			}
+			for k, v := range dist {
+				fmt.Printf("  %d x %s\n", v, k)
+			}
+		}
 		if cl != "" {
 			r.Fail(cl, what, c)
 		}
@@ -279,7 +304,7 @@ func main() {
 		maxLen int
 		sets   []Opts
 	}
-	tiers := []tier{{"full_product", 2, fullSets()}, {"default_singles_pairs", 3, pairSets()}, {"default_singles", 4, singleSets()}}
+	tiers := []tier{{"full_product", 1, fullSets()}, {"default_singles_pairs", 3, pairSets()}, {"default_singles", 4, singleSets()}}
 	if r.Thorough() {
 		tiers = []tier{{"full_product", 3, fullSets()}, {"default_singles_pairs", 4, pairSets()}, {"default_singles_skip_pairs", 5, skipPairSets()}}
 	}
@@ -301,7 +326,7 @@ func main() {
 			}()})
 		lo = t.maxLen + 1
 	}
-	e := &explorer{r: r, maxLen: maxLen, seed: int((r.Seed%100003 + 100003) % 100003)}
+	e := &explorer{r: r, maxLen: maxLen, seed: int((r.Seed%100003 + 100003) % 100003), lines: map[string]int64{}}
 	e.allKinds = append(append([]string{}, consumeKinds...), produceKinds...)
 
 	r.Set("text_alphabet", alphabet)
@@ -327,8 +352,9 @@ func main() {
 	})
 
 	r.Set("executions_where_record_and_line_readings_of_skip_differ", e.ambig.Load())
-	r.Set("of_those_matching_only_the_physical_line_reading", e.lines.Load())
+	r.Set("of_those_matching_only_the_physical_line_reading_by_kind", e.lines)
 	r.Set("record_table_sources_without_input_(text_does_not_parse)", e.napp.Load())
+	r.Set("chunked_writerto_calls_that_returned_closed_pipe_instead_of_the_parser_error_(scheduling_dependent,_not_judged)", e.pipeErr.Load())
 	r.Set("codec_written_texts_fed_back_to_the_consumer", e.rtTexts.Load())
 	r.Assume("encoding/csv (reader and writer of the Go standard library) is the definition of 'a standard CSV parse'",
 		"the reference reader is configured directly from the abstract option set, never through the code under test",
